@@ -10,6 +10,7 @@ import (
 	"time"
 
 	"verifharness/core"
+	"verifharness/explore"
 
 	"github.com/cinar/indicator/v2/asset"
 	"github.com/cinar/indicator/v2/verifmc/mc"
@@ -375,10 +376,94 @@ func repoUnit(c *core.Ctx, k repoKind, init string, depth int) {
 	c.Notes[k.name+"/"+init] = map[string]any{"states": len(seen), "depth": depth}
 }
 
+// memConcurrentUnit: overlapping Appends on the in-memory repository (it is the target of multi-worker syncs):
+// every Append that has returned must be visible afterwards, whatever the interleaving.
+func memConcurrentUnit(c *core.Ctx) {
+	type job struct {
+		name string
+		days []int
+	}
+	cases := [][]job{
+		{{"A", []int{1, 2}}, {"A", []int{3}}},
+		{{"A", []int{1}}, {"gs", []int{1, 2}}},
+		{{"A", []int{1, 2}}, {"A", []int{2, 3}}, {"gs", []int{0}}},
+	}
+	for ci, jobs := range cases {
+		sc := func() explore.Exec {
+			var got map[string][]*asset.Snapshot
+			returned := 0
+			body := func() {
+				r := asset.NewInMemoryRepository()
+				r.Append("A", Feed([]*asset.Snapshot{snap(0, 0)}, 0))
+				var wg mc.WaitGroup
+				for ji, j := range jobs {
+					j := j
+					var sn []*asset.Snapshot
+					for _, d := range j.days {
+						sn = append(sn, snap(d, 1+ji))
+					}
+					wg.Add(1)
+					mc.Go(func() {
+						defer wg.Done()
+						if r.Append(j.name, Feed(sn, 0)) == nil {
+							returned++
+						}
+					})
+				}
+				wg.Wait()
+				got = map[string][]*asset.Snapshot{}
+				for _, name := range []string{"A", "gs"} {
+					if ch, err := r.Get(name); err == nil {
+						got[name] = drainSnaps(ch)
+					}
+				}
+			}
+			observe := func(res *mc.Result) (string, string) {
+				if res.Deadlock || len(res.Panics) > 0 {
+					return "HANG", fmt.Sprintf("concurrent Appends did not finish (deadlock=%v panics=%d)", res.Deadlock, len(res.Panics))
+				}
+				want := map[string]int{"A": 1}
+				for _, j := range jobs {
+					want[j.name] += len(j.days)
+				}
+				out := ""
+				for _, name := range []string{"A", "gs"} {
+					out += fmt.Sprintf("%s:%d ", name, len(got[name]))
+					if len(got[name]) != want[name] {
+						return out, fmt.Sprintf("%d Appends returned, asset %s should hold %d snapshots but Get returns %s", returned, name, want[name], descSnaps(got[name]))
+					}
+				}
+				return out, ""
+			}
+			return explore.Exec{Body: body, Observe: observe}
+		}
+		st := explore.DPOR(sc, explore.Opts{Races: true, MaxExec: 20000})
+		c.States++
+		c.Evaluations++
+		c.Nontrivial++
+		c.Executions += int64(st.Executions)
+		c.Transitions += int64(st.Events)
+		if st.Internal != "" {
+			c.InternalError(st.Internal)
+		}
+		if !st.Exhaustive {
+			c.NotExhaustive("DPOR cap on concurrent appends: " + st.CapHit)
+		}
+		for _, v := range st.Violations {
+			c.Fail("", fmt.Sprintf("in-memory repository, overlapping Appends (case %d, schedule %v): %s", ci, compact(v.Choices), v.Text), map[string]any{"case": ci, "choices": compact(v.Choices)})
+			break
+		}
+		for pair := range st.RacePairs {
+			c.Fail(raceKey(pair), fmt.Sprintf("in-memory repository, overlapping Appends: data race between %s", pair), nil)
+		}
+		c.Notes[fmt.Sprintf("memory concurrent appends case %d", ci)] = map[string]any{"dpor_traces": st.Executions}
+	}
+}
+
 func init() {
 	core.Register(&core.Check{
 		ID:   "C10",
-		Rule: "explicit-state BFS over Append histories (2 asset names x 5 batches incl. empty and equal-date boundary, plus out-of-date-order back-fills for the in-memory and file-system repositories, depth 4 / 5 thorough) on the real in-memory, file-system (initial states: empty dir, existing empty file, header-only file) and SQL (over an in-harness conforming database/sql driver) repositories, deduplicated on the concrete persisted state; in every state every read (Get, GetSince at every date and between dates, LastDate, Assets for two known and one unknown name) is compared with the map model and must leave the state unchanged; every history runs as one controlled execution, so 'Append has returned => visible' and hangs are decided without clocks; non-trivial = non-initial states",
+		Rule: "explicit-state BFS over Append histories (2 asset names x 5 batches incl. empty and equal-date boundary, plus out-of-date-order back-fills for the in-memory and file-system repositories, depth 4 / 5 thorough) on the real in-memory, file-system (initial states: empty dir, existing empty file, header-only file) and SQL (over an in-harness conforming database/sql driver) repositories, deduplicated on the concrete persisted state; in every state every read (Get, GetSince at every date and between dates, LastDate, Assets for two known and one unknown name) is compared with the map model and must leave the state unchanged; every history runs as one controlled execution, so 'Append has returned => visible' and hangs are decided without clocks; plus 2-3 overlapping Appends on the in-memory repository explored over all schedules by DPOR (every returned Append must be visible); non-trivial = non-initial states",
 		Assume: []string{"SQL repository is exercised over the harness's fake driver only (rows in insertion order, positional parameters)", "snapshot values: finite floats incl. 0.1, 1/3, 1e21; whole-day UTC dates in 2021",
 			"an asset that was appended with empty batches only may or may not be listed / readable (not constrained by the property)"},
 		Units: func(tier string) []core.Unit {
@@ -398,6 +483,7 @@ func init() {
 					us = append(us, core.Unit{Key: "repo-" + k.name + "-" + in, Cost: cost, Run: func(c *core.Ctx) { repoUnit(c, k, in, depth) }})
 				}
 			}
+			us = append(us, core.Unit{Key: "repo-memory-concurrent-appends", Cost: 5, Run: memConcurrentUnit})
 			return us
 		},
 	})
